@@ -199,6 +199,13 @@ type c02Interp struct {
 	pIdx, idIdx        int                   // positions of (parent, id) among F's parameters
 	idChanged          bool                  // the id the copies were fetched with is reassigned somewhere
 
+	client  kit.Client
+	stack   []*kit.Func // callees being evaluated inline, innermost last
+	scanned map[*kit.Func]bool
+	unsafe  map[*kit.Func]bool
+	inlined map[*kit.Func]bool
+	fnByKey map[string]*kit.Func
+
 	// per run
 	unknown        []string
 	unknownRelated bool
@@ -224,17 +231,41 @@ func c02SideLong(s string) string {
 	return "an untyped connection"
 }
 
-func (it *c02Interp) listOf(e ast.Expr) (grp, side string, ok bool) {
+// copyOf names the compared copy an expression denotes: "L", "U" or "".
+func (it *c02Interp) copyOf(e ast.Expr, s kit.S) string {
+	id, ok := ast.Unparen(e).(*ast.Ident)
+	if !ok {
+		return ""
+	}
+	o := kit.ObjOf(it.info, id)
+	switch {
+	case o == nil:
+		return ""
+	case o == it.m.L:
+		return "L"
+	case o == it.m.U:
+		return "U"
+	}
+	return s.Get("n:" + kit.VarID(o))
+}
+
+// copyField: e is `<copy>.<fld>`.
+func (it *c02Interp) copyField(e ast.Expr, fld *types.Var, s kit.S) string {
+	sel, ok := ast.Unparen(e).(*ast.SelectorExpr)
+	if !ok || kit.ObjOf(it.info, sel) != types.Object(fld) {
+		return ""
+	}
+	return it.copyOf(sel.X, s)
+}
+
+func (it *c02Interp) listOf(e ast.Expr, s kit.S) (grp, side string, ok bool) {
 	e = ast.Unparen(e)
 	switch x := e.(type) {
 	case *ast.SelectorExpr:
-		base := kit.ObjOf(it.info, x.X)
-		switch {
-		case base == nil:
-			return
-		case base == it.m.L:
+		switch it.copyOf(x.X, s) {
+		case "L":
 			side = "L"
-		case base == it.m.U:
+		case "U":
 			side = "R"
 		default:
 			return
@@ -247,11 +278,19 @@ func (it *c02Interp) listOf(e ast.Expr) (grp, side string, ok bool) {
 		}
 	case *ast.Ident:
 		o := kit.ObjOf(it.info, x)
+		if o == nil {
+			return
+		}
 		if sd, ok := it.childList[o]; ok {
 			return "ch", sd, true
 		}
 		if a, ok := it.alias[o]; ok {
 			return a[0], a[1], true
+		}
+		if l := s.Get("l:" + kit.VarID(o)); l != "" {
+			if p := strings.Split(l, ":"); len(p) == 2 {
+				return p[0], p[1], true
+			}
 		}
 	}
 	return "", "", false
@@ -269,7 +308,7 @@ func (it *c02Interp) intOf(e ast.Expr, s kit.S) (int, bool) {
 	e = ast.Unparen(e)
 	if call, ok := e.(*ast.CallExpr); ok && len(call.Args) == 1 {
 		if b, ok := kit.Callee(it.info, call).(*types.Builtin); ok && b.Name() == "len" {
-			if g, sd, ok := it.listOf(call.Args[0]); ok {
+			if g, sd, ok := it.listOf(call.Args[0], s); ok {
 				return it.size(g, sd), true
 			}
 			return 0, false
@@ -294,12 +333,12 @@ func (it *c02Interp) intOf(e ast.Expr, s kit.S) (int, bool) {
 	return 0, false
 }
 
-func (it *c02Interp) mentionsLen(e ast.Expr) bool {
+func (it *c02Interp) mentionsLen(e ast.Expr, s kit.S) bool {
 	found := false
 	ast.Inspect(e, func(n ast.Node) bool {
 		if call, ok := n.(*ast.CallExpr); ok && len(call.Args) == 1 {
 			if b, ok := kit.Callee(it.info, call).(*types.Builtin); ok && b.Name() == "len" {
-				if _, _, ok := it.listOf(call.Args[0]); ok {
+				if _, _, ok := it.listOf(call.Args[0], s); ok {
 					found = true
 				}
 			}
@@ -319,10 +358,15 @@ func (it *c02Interp) elemOf(e ast.Expr, s kit.S) string {
 			return s.Get("b:" + kit.VarID(o))
 		}
 	case *ast.IndexExpr:
-		if g, sd, ok := it.listOf(x.X); ok {
+		if g, sd, ok := it.listOf(x.X, s); ok {
 			if i, ok := it.intOf(x.Index, s); ok && i >= 0 && i < it.size(g, sd) {
 				return c02ElemName(g, sd, i)
 			}
+		}
+	case *ast.CallExpr:
+		// entry returned by a callee that was evaluated inline
+		if v := it.st.CallResult(x, 0, s); strings.Count(v, ":") == 2 {
+			return v
 		}
 	}
 	return ""
@@ -374,7 +418,8 @@ func (it *c02Interp) mentionsTracked(e ast.Node, s kit.S) bool {
 	ast.Inspect(e, func(n ast.Node) bool {
 		if id, ok := n.(*ast.Ident); ok {
 			if o := kit.ObjOf(it.info, id); o != nil {
-				if it.tracked[o] || it.containers[o] || s.Has("b:"+kit.VarID(o)) {
+				id := kit.VarID(o)
+				if it.tracked[o] || it.containers[o] || s.Has("b:"+id) || s.Has("n:"+id) || s.Has("l:"+id) {
 					found = true
 				}
 				if isErrorType(o.Type()) {
@@ -448,7 +493,7 @@ func (it *c02Interp) fold(e ast.Expr, s kit.S) (bool, bool) {
 		}
 		switch x.Op {
 		case token.EQL, token.NEQ, token.LSS, token.LEQ, token.GTR, token.GEQ:
-			if it.mentionsLen(x) {
+			if it.mentionsLen(x, s) {
 				a, ok1 := it.intOf(x.X, s)
 				b, ok2 := it.intOf(x.Y, s)
 				if ok1 && ok2 {
@@ -485,7 +530,11 @@ func (it *c02Interp) foldEq(x *ast.BinaryExpr, s kit.S) (equal, ok bool) {
 	}
 	// device root: <copy>.ID against the cached LOCAL root's ID
 	isCopyID := func(e ast.Expr) bool {
-		return m.nodeField(e, m.L, m.idF) || m.nodeField(e, m.U, m.idF)
+		switch it.role(e, s) {
+		case "L.ID", "U.ID", "P.ID":
+			return true
+		}
+		return false
 	}
 	isRootID := func(e ast.Expr) bool {
 		sel, ok := ast.Unparen(e).(*ast.SelectorExpr)
@@ -541,6 +590,11 @@ func (it *c02Interp) onNode(n ast.Node, s kit.S) []kit.S {
 		}
 		return []kit.S{s}
 	}
+	switch n.(type) {
+	case *ast.GoStmt, *ast.DeferStmt:
+		// runs outside the interpreted order
+		return []kit.S{c02AddOut(s, "O|*|-|-|-|-|"+it.f.At(n))}
+	}
 	as, ok := n.(*ast.AssignStmt)
 	if !ok {
 		return []kit.S{s}
@@ -571,12 +625,22 @@ func (it *c02Interp) onNode(n ast.Node, s kit.S) []kit.S {
 		}
 	}
 	if len(as.Lhs) != len(as.Rhs) {
-		for _, l := range as.Lhs {
+		call, _ := ast.Unparen(as.Rhs[0]).(*ast.CallExpr)
+		for i, l := range as.Lhs {
 			if id, ok := ast.Unparen(l).(*ast.Ident); ok {
 				if o := kit.ObjOf(info, id); o != nil {
-					s = s.Del("b:" + kit.VarID(o))
+					s = it.unbind(s, o)
 					if o == it.m.L || o == it.m.U {
 						s = s.Set("poison", "a compared copy is reassigned: "+it.f.Str(as))
+					}
+					if call != nil {
+						// results of a callee evaluated inline
+						switch v := it.st.CallResult(call, i, s); {
+						case strings.Count(v, ":") == 2:
+							s = s.Set("b:"+kit.VarID(o), v)
+						case strings.HasPrefix(v, "#"):
+							s = s.Set("v:"+kit.VarID(o), v[1:])
+						}
 					}
 				}
 			}
@@ -620,20 +684,11 @@ func (it *c02Interp) onNode(n ast.Node, s kit.S) []kit.S {
 				s = s.Set("poison", "a compared copy is reassigned: "+it.f.Str(as))
 				continue
 			}
-			if c02IsConn(o.Type()) {
-				// local alias of a typed connection
-				if sd := it.connSideOf(rhs, s); sd != "?" {
-					s = s.Set("cs:"+id, sd)
-				} else {
-					s = s.Del("cs:" + id)
-				}
+			s = it.unbind(s, o)
+			if as.Tok != token.ASSIGN && as.Tok != token.DEFINE {
 				continue
 			}
-			if el := it.payload(rhs, s); el != "" && (as.Tok == token.ASSIGN || as.Tok == token.DEFINE) {
-				s = s.Set("b:"+id, el)
-			} else {
-				s = s.Del("b:" + id)
-			}
+			s = it.bindValue(s, o, rhs, s)
 		case *ast.SelectorExpr:
 			base := kit.ObjOf(info, x.X)
 			if base == nil {
@@ -645,7 +700,7 @@ func (it *c02Interp) onNode(n ast.Node, s kit.S) []kit.S {
 			if b := s.Get("b:" + kit.VarID(base)); b != "" && !strings.HasSuffix(b, "!") {
 				s = s.Set("b:"+kit.VarID(base), b+"!")
 			}
-			if base == it.m.L || base == it.m.U {
+			if it.copyOf(x.X, s) != "" {
 				switch kit.ObjOf(info, x) {
 				case types.Object(it.m.pointsF), types.Object(it.m.edgePointsF), types.Object(it.m.idF), types.Object(it.m.parentF):
 					s = s.Set("poison", "a compared copy is modified: "+it.f.Str(as))
@@ -656,11 +711,93 @@ func (it *c02Interp) onNode(n ast.Node, s kit.S) []kit.S {
 	return []kit.S{s}
 }
 
+// unbind forgets what the interpreter knew about a variable.
+func (it *c02Interp) unbind(s kit.S, o types.Object) kit.S {
+	id := kit.VarID(o)
+	for _, pre := range []string{"b:", "l:", "n:", "cs:", "fn:", "r:"} {
+		s = s.Del(pre + id)
+	}
+	return s
+}
+
+// bindValue records what variable / parameter o denotes when it receives the
+// value of e (evaluated in state at): an entry, a list, a compared copy, a
+// typed connection, a function value, an id role, a boolean or integer the
+// scenario determines.  ok=false: e carries compared data the interpreter
+// cannot name.
+func (it *c02Interp) bindValueOK(s kit.S, o types.Object, e ast.Expr, at kit.S) (kit.S, bool) {
+	id := kit.VarID(o)
+	t := o.Type()
+	switch {
+	case c02IsConn(t):
+		if sd := it.connSideOf(e, at); sd != "?" {
+			s = s.Set("cs:"+id, sd)
+		}
+		return s, true
+	case c02IsPoint(t):
+		if el := it.payload(e, at); el != "" {
+			return s.Set("b:"+id, el), true
+		}
+		return s, !it.mentionsTracked(e, at)
+	case c02IsPoints(t), c02IsNodeEdgeSlice(t):
+		if g, sd, ok := it.listOf(e, at); ok {
+			return s.Set("l:"+id, g+":"+sd), true
+		}
+		if el := it.payload(e, at); el != "" && c02IsPoints(t) {
+			return s.Set("b:"+id, el), true // one-entry list
+		}
+		return s, !it.mentionsTracked(e, at)
+	case c02IsNodeEdge(t):
+		if cp := it.copyOf(e, at); cp != "" {
+			return s.Set("n:"+id, cp), true
+		}
+		if el := it.elemOf(e, at); el != "" {
+			return s.Set("b:"+id, el), true
+		}
+		return s, !it.mentionsTracked(e, at)
+	}
+	if _, isFunc := t.Underlying().(*types.Signature); isFunc {
+		if k := it.funcKey(e, at); k != "" {
+			return s.Set("fn:"+id, k), true
+		}
+		return s.Set("fn:"+id, "?"), true
+	}
+	if b, ok := t.Underlying().(*types.Basic); ok {
+		switch {
+		case b.Info()&types.IsBoolean != 0:
+			ts, fs := it.st.Eval.Eval(e, at)
+			if len(ts) > 0 && len(fs) == 0 {
+				s = s.Set("v:"+id, "true")
+			} else if len(fs) > 0 && len(ts) == 0 {
+				s = s.Set("v:"+id, "false")
+			}
+		case b.Info()&types.IsInteger != 0:
+			if i, ok := it.intOf(e, at); ok {
+				s = s.Set("v:"+id, strconv.Itoa(i))
+			}
+		case b.Info()&types.IsString != 0:
+			if v, ok := it.st.FoldExpr(e, at); ok && v.Kind() == constant.String {
+				s = s.Set("v:"+id, v.ExactString())
+			} else if r := it.role(e, at); !strings.HasPrefix(r, "?") {
+				s = s.Set("r:"+id, r)
+			}
+		}
+		return s, true
+	}
+	return s, !it.mentionsTracked(e, at)
+}
+
+func (it *c02Interp) bindValue(s kit.S, o types.Object, e ast.Expr, at kit.S) kit.S {
+	s2, _ := it.bindValueOK(s, o, e, at)
+	return s2
+}
+
 // gc drops facts about variables declared inside the loop body.
 func (it *c02Interp) gc(s kit.S, rs *ast.RangeStmt) kit.S {
 	lo, hi := int(rs.Body.Pos()), int(rs.Body.End())
 	for _, k := range s.Keys() {
-		if !(strings.HasPrefix(k, "nn:") || strings.HasPrefix(k, "ev:") || strings.HasPrefix(k, "v:") || strings.HasPrefix(k, "b:")) {
+		if !(strings.HasPrefix(k, "nn:") || strings.HasPrefix(k, "ev:") || strings.HasPrefix(k, "v:") || strings.HasPrefix(k, "b:") || strings.HasPrefix(k, "q:") ||
+			strings.HasPrefix(k, "l:") || strings.HasPrefix(k, "n:") || strings.HasPrefix(k, "cs:") || strings.HasPrefix(k, "fn:") || strings.HasPrefix(k, "r:")) {
 			continue
 		}
 		at := strings.LastIndexByte(k, '@')
@@ -681,7 +818,7 @@ func (it *c02Interp) onBranch(br kit.Branch, s kit.S) (t, fl []kit.S, handled bo
 	}
 	rs := br.Range
 	s = it.gc(s, rs)
-	grp, side, ok := it.listOf(rs.X)
+	grp, side, ok := it.listOf(rs.X, s)
 	if !ok {
 		return []kit.S{s}, []kit.S{s}, true
 	}
@@ -719,12 +856,8 @@ func (it *c02Interp) role(e ast.Expr, s kit.S) string {
 		default:
 			return "?" + it.f.Str(e)
 		}
-		base := kit.ObjOf(it.info, sel.X)
-		switch {
-		case base != nil && base == m.L:
-			return "L." + fname
-		case base != nil && base == m.U:
-			return "U." + fname
+		if cp := it.copyOf(sel.X, s); cp != "" {
+			return cp + "." + fname
 		}
 		if el := it.elemOf(sel.X, s); el != "" {
 			return "E." + fname + ":" + el
@@ -732,9 +865,14 @@ func (it *c02Interp) role(e ast.Expr, s kit.S) string {
 		return "?" + it.f.Str(e)
 	}
 	if id, ok := e.(*ast.Ident); ok {
-		if o := kit.ObjOf(it.info, id); o != nil && o == m.pID && !it.idChanged {
-			// the id both copies were fetched with; usable only while unchanged
-			return "P.ID"
+		if o := kit.ObjOf(it.info, id); o != nil {
+			if o == m.pID && !it.idChanged {
+				// the id both copies were fetched with; usable only while unchanged
+				return "P.ID"
+			}
+			if r := s.Get("r:" + kit.VarID(o)); r != "" {
+				return r
+			}
 		}
 	}
 	return "?" + it.f.Str(e)
@@ -783,7 +921,7 @@ func (it *c02Interp) payloadRelated(e ast.Expr, s kit.S) bool {
 	}
 	o := kit.ObjOf(it.info, id)
 	rel := false
-	ast.Inspect(it.f.Body, func(n ast.Node) bool {
+	ast.Inspect(it.cur().Body, func(n ast.Node) bool {
 		as, ok := n.(*ast.AssignStmt)
 		if !ok {
 			return true
@@ -825,7 +963,7 @@ func (it *c02Interp) onCall(call *ast.CallExpr, n ast.Node, s kit.S) []kit.S {
 		rec := strings.Join([]string{"S", side, sg.kind(), pay, it.role(call.Args[sg.id], s), pr, it.f.At(call)}, "|")
 		return []kit.S{c02AddOut(s, rec)}
 	}
-	if t := m.transferOf(it.f, call); t != nil && len(call.Args) >= 1 {
+	if t := m.transferOf(it.cur(), call); t != nil && len(call.Args) >= 1 {
 		pay := it.elemOf(call.Args[0], s)
 		if pay == "" {
 			pay = "?" + it.f.Str(call.Args[0])
@@ -833,7 +971,7 @@ func (it *c02Interp) onCall(call *ast.CallExpr, n ast.Node, s kit.S) []kit.S {
 		rec := strings.Join([]string{"T", c02SideAbbr(t.dest), "ch", pay, "-", "-", it.f.At(call)}, "|")
 		return []kit.S{c02AddOut(s, rec)}
 	}
-	if it.f.CalleeFunc(call) == it.f && it.pIdx >= 0 && it.idIdx >= 0 && len(call.Args) > it.pIdx && len(call.Args) > it.idIdx {
+	if it.cur().CalleeFunc(call) == it.f && it.pIdx >= 0 && it.idIdx >= 0 && len(call.Args) > it.pIdx && len(call.Args) > it.idIdx {
 		idr := it.role(call.Args[it.idIdx], s)
 		pay := "?" + it.f.Str(call.Args[it.idIdx])
 		if strings.HasPrefix(idr, "E.ID:") {
@@ -850,7 +988,447 @@ func (it *c02Interp) onCall(call *ast.CallExpr, n ast.Node, s kit.S) []kit.S {
 			return []kit.S{s.Set("cd:"+kit.VarID(o), "1")}
 		}
 	}
+	if _, isBuiltin := kit.Callee(it.info, call).(*types.Builtin); isBuiltin {
+		return nil
+	}
+	if tv, ok := it.info.Types[call.Fun]; ok && tv.IsType() {
+		return nil // conversion
+	}
+	// helpers and closures: evaluated inline under the scenario; where that is
+	// not possible and the callee could have acted on the compared data, the
+	// path is marked opaque (a missing outcome is then undecided, not a violation)
+	cf, fnValue := it.resolveCallee(call, s)
+	if cf != nil && it.wantInline(cf, call, s) {
+		if out := it.inline(cf, call, s); out != nil {
+			return out
+		}
+	}
+	if it.couldAct(cf, fnValue, call, s) {
+		return []kit.S{c02AddOut(s, "O|*|-|-|-|-|"+it.f.At(call))}
+	}
 	return nil
+}
+
+func (it *c02Interp) cur() *kit.Func {
+	if n := len(it.stack); n > 0 {
+		return it.stack[n-1]
+	}
+	return it.f
+}
+
+func (it *c02Interp) register(fn *kit.Func) string {
+	if fn == nil {
+		return ""
+	}
+	k := strconv.Itoa(int(fn.Pos()))
+	it.fnByKey[k] = fn
+	return k
+}
+
+// funcKey names the function value an expression denotes.
+func (it *c02Interp) funcKey(e ast.Expr, s kit.S) string {
+	e = ast.Unparen(e)
+	switch x := e.(type) {
+	case *ast.FuncLit:
+		return it.register(it.m.c.P.LitFunc(it.f.PkgRel(), x))
+	case *ast.Ident:
+		o := kit.ObjOf(it.info, x)
+		if o == nil {
+			return ""
+		}
+		if k := s.Get("fn:" + kit.VarID(o)); k != "" && k != "?" {
+			return k
+		}
+		if fn, ok := o.(*types.Func); ok {
+			return it.register(it.m.c.P.FuncOf(fn))
+		}
+		return it.register(it.cur().LocalClosure(o))
+	case *ast.SelectorExpr:
+		if fn, ok := kit.ObjOf(it.info, x).(*types.Func); ok {
+			return it.register(it.m.c.P.FuncOf(fn.Origin()))
+		}
+	}
+	return ""
+}
+
+// resolveCallee finds the body a call runs; fnValue reports a call through a
+// function value (parameter, variable, field).
+func (it *c02Interp) resolveCallee(call *ast.CallExpr, s kit.S) (cf *kit.Func, fnValue bool) {
+	fun := ast.Unparen(call.Fun)
+	if lit, ok := fun.(*ast.FuncLit); ok {
+		return it.m.c.P.LitFunc(it.f.PkgRel(), lit), true
+	}
+	switch o := kit.Callee(it.info, call).(type) {
+	case *types.Func:
+		return it.m.c.P.FuncOf(o), false
+	case *types.Var:
+		if k := s.Get("fn:" + kit.VarID(o)); k != "" {
+			return it.fnByKey[k], true
+		}
+		if !o.IsField() {
+			return it.cur().LocalClosure(o), true
+		}
+		return nil, true
+	case nil:
+		// call of a call result, method expression …
+		if _, isSig := it.info.TypeOf(call.Fun).Underlying().(*types.Signature); isSig {
+			return nil, true
+		}
+	}
+	return nil, false
+}
+
+// carriesData: can a value of this type hold a point, a node or code?
+func c02CarriesData(t types.Type) bool {
+	if t == nil {
+		return false
+	}
+	if c02IsConn(t) {
+		return false
+	}
+	switch u := t.Underlying().(type) {
+	case *types.Basic:
+		return false
+	case *types.Pointer:
+		return c02CarriesData(u.Elem())
+	}
+	return true
+}
+
+// wantInline: closures, and declared functions of the package that receive
+// compared data, a function value, or (predicates) an id of a compared copy.
+func (it *c02Interp) wantInline(cf *kit.Func, call *ast.CallExpr, s kit.S) bool {
+	if cf.Body == nil || cf.Pkg != it.f.Pkg || cf == it.f || cf == it.m.fetch || len(it.stack) >= 4 {
+		return false
+	}
+	for _, x := range it.stack {
+		if x == cf {
+			return false
+		}
+	}
+	if it.unsafeFn(cf) {
+		return false
+	}
+	if cf.Lit != nil {
+		return true
+	}
+	for _, a := range call.Args {
+		t := it.info.TypeOf(a)
+		if _, isFunc := t.Underlying().(*types.Signature); isFunc {
+			return true
+		}
+		if it.mentionsTracked(a, s) {
+			return true
+		}
+	}
+	if sel, ok := ast.Unparen(call.Fun).(*ast.SelectorExpr); ok {
+		if _, isMethod := it.info.Selections[sel]; isMethod && it.mentionsTracked(sel.X, s) {
+			return true
+		}
+	}
+	return false
+}
+
+// couldAct: an uninterpreted call that may have sent, transferred or
+// recursed on behalf of the judged path.
+func (it *c02Interp) couldAct(cf *kit.Func, fnValue bool, call *ast.CallExpr, s kit.S) bool {
+	inPkg := fnValue
+	if cf != nil && cf.Pkg == it.f.Pkg {
+		inPkg = true
+	}
+	if fn, ok := kit.Callee(it.info, call).(*types.Func); ok && fn.Pkg() != nil && fn.Pkg().Path() == it.f.Pkg.PkgPath {
+		inPkg = true
+	}
+	// a function value handed to anybody may be called back
+	for _, a := range call.Args {
+		if t := it.info.TypeOf(a); t != nil {
+			if _, isFunc := t.Underlying().(*types.Signature); isFunc {
+				if _, isNil := ast.Unparen(a).(*ast.Ident); !isNil || !kit.IsNilIdent(it.info, a) {
+					return true
+				}
+			}
+		}
+	}
+	if !inPkg {
+		return false // other packages cannot reach the client's send functions
+	}
+	if fnValue || (cf != nil && cf.Lit != nil) {
+		return true // closures capture
+	}
+	for _, a := range call.Args {
+		if c02CarriesData(it.info.TypeOf(a)) && it.mentionsTracked(a, s) {
+			return true
+		}
+	}
+	if sel, ok := ast.Unparen(call.Fun).(*ast.SelectorExpr); ok {
+		if _, isMethod := it.info.Selections[sel]; isMethod && c02CarriesData(it.info.TypeOf(sel.X)) && it.mentionsTracked(sel.X, s) {
+			return true
+		}
+	}
+	return false
+}
+
+// unsafeFn: a declared callee whose locals escape into closures or pointers
+// cannot be tracked by the constant propagation (only the root function is
+// pre-scanned by kit.Std).
+func (it *c02Interp) unsafeFn(cf *kit.Func) bool {
+	root := cf.Root()
+	if root == it.f {
+		return false
+	}
+	if v, ok := it.unsafe[root]; ok {
+		return v
+	}
+	bad := false
+	var walk func(n ast.Node, inLit bool)
+	walk = func(n ast.Node, inLit bool) {
+		ast.Inspect(n, func(x ast.Node) bool {
+			switch y := x.(type) {
+			case *ast.FuncLit:
+				if x != n {
+					walk(y.Body, true)
+					return false
+				}
+			case *ast.UnaryExpr:
+				if y.Op == token.AND {
+					if _, isIdent := ast.Unparen(y.X).(*ast.Ident); isIdent {
+						bad = true
+					}
+				}
+			case *ast.AssignStmt:
+				if inLit {
+					for _, l := range y.Lhs {
+						if id, ok := ast.Unparen(l).(*ast.Ident); ok && y.Tok == token.ASSIGN && id.Name != "_" {
+							bad = true
+						}
+					}
+				}
+			case *ast.IncDecStmt:
+				if inLit {
+					bad = true
+				}
+			}
+			return true
+		})
+	}
+	if root.Body != nil {
+		walk(root.Body, false)
+	}
+	it.unsafe[root] = bad
+	return bad
+}
+
+// scan registers the ranges and boolean containers of a function body.
+func (it *c02Interp) scan(fn *kit.Func) {
+	if it.scanned[fn] || fn.Body == nil {
+		return
+	}
+	it.scanned[fn] = true
+	info := it.info
+	ast.Inspect(fn.Body, func(n ast.Node) bool {
+		switch x := n.(type) {
+		case *ast.RangeStmt:
+			it.rangeX[x.X] = x
+		case *ast.AssignStmt:
+			for _, l := range x.Lhs {
+				id, ok := ast.Unparen(l).(*ast.Ident)
+				if !ok {
+					continue
+				}
+				o := kit.ObjOf(info, id)
+				if v, ok := o.(*types.Var); ok && !v.IsField() && v.Parent() != nil && v.Pkg() != nil && v.Parent() != v.Pkg().Scope() {
+					var el types.Type
+					switch t := v.Type().Underlying().(type) {
+					case *types.Map:
+						el = t.Elem()
+					case *types.Slice:
+						el = t.Elem()
+					}
+					if el != nil {
+						if b, ok := el.Underlying().(*types.Basic); ok && b.Kind() == types.Bool {
+							it.containers[o] = true
+						}
+					}
+				}
+			}
+		}
+		return true
+	})
+	// containers that escape (passed to a call, address taken, ranged over) are not modelled
+	ast.Inspect(fn.Body, func(n ast.Node) bool {
+		switch x := n.(type) {
+		case *ast.CallExpr:
+			if b, ok := kit.Callee(info, x).(*types.Builtin); ok && (b.Name() == "delete" || b.Name() == "len") {
+				return true
+			}
+			for _, a := range x.Args {
+				if o := kit.ObjOf(info, a); o != nil {
+					delete(it.containers, o)
+				}
+			}
+		case *ast.UnaryExpr:
+			if x.Op == token.AND {
+				if o := kit.ObjOf(info, x.X); o != nil {
+					delete(it.containers, o)
+				}
+			}
+		case *ast.RangeStmt:
+			if o := kit.ObjOf(info, x.X); o != nil {
+				delete(it.containers, o)
+			}
+		case *ast.ReturnStmt:
+			for _, r := range x.Results {
+				if o := kit.ObjOf(info, r); o != nil {
+					delete(it.containers, o)
+				}
+			}
+		}
+		return true
+	})
+}
+
+func c02EndsInPanic(info *types.Info, b *cfg.Block) bool {
+	if len(b.Nodes) == 0 {
+		return false
+	}
+	es, ok := b.Nodes[len(b.Nodes)-1].(*ast.ExprStmt)
+	if !ok {
+		return false
+	}
+	call, ok := es.X.(*ast.CallExpr)
+	if !ok {
+		return false
+	}
+	if bi, ok := kit.Callee(info, call).(*types.Builtin); ok && bi.Name() == "panic" {
+		return true
+	}
+	switch kit.QualName(kit.Callee(info, call)) {
+	case "log.Fatal", "log.Fatalf", "log.Fatalln", "os.Exit", "log.Panic", "log.Panicf", "log.Panicln", "runtime.Goexit":
+		return true
+	}
+	return false
+}
+
+// inline evaluates the callee's body under the current state.  nil = not
+// evaluated.
+func (it *c02Interp) inline(cf *kit.Func, call *ast.CallExpr, s kit.S) []kit.S {
+	params := cf.Params()
+	if len(params) != len(call.Args) {
+		return nil
+	}
+	if sig, ok := it.info.TypeOf(call.Fun).Underlying().(*types.Signature); ok && sig.Variadic() {
+		return nil
+	}
+	init := s
+	for i, p := range params {
+		init = it.unbind(init, p).Del("v:" + kit.VarID(p)).Del("nn:" + kit.VarID(p))
+		var ok bool
+		if init, ok = it.bindValueOK(init, p, call.Args[i], s); !ok {
+			return nil
+		}
+	}
+	// a method's receiver that is a compared copy or an entry
+	if cf.Decl != nil && cf.Decl.Recv != nil && len(cf.Decl.Recv.List) == 1 && len(cf.Decl.Recv.List[0].Names) == 1 {
+		if sel, ok := ast.Unparen(call.Fun).(*ast.SelectorExpr); ok {
+			if ro := it.info.Defs[cf.Decl.Recv.List[0].Names[0]]; ro != nil {
+				init = it.unbind(init, ro)
+				var ok bool
+				if init, ok = it.bindValueOK(init, ro, sel.X, s); !ok {
+					return nil
+				}
+			}
+		}
+	}
+	it.scan(cf)
+	it.stack = append(it.stack, cf)
+	res := it.m.c.P.Graph(cf).Run(init, it.client)
+	it.stack = it.stack[:len(it.stack)-1]
+	if res.Overflow {
+		return nil
+	}
+	errT := types.Universe.Lookup("error").Type()
+	lo, hi := int(cf.Node().Pos()), int(cf.Node().End())
+	inRange := func(p int) bool { return p >= lo && p <= hi }
+	out := []kit.S{}
+	seen := map[string]bool{}
+	for _, e := range res.Exits {
+		if e.Return == nil && c02EndsInPanic(it.info, e.Block) {
+			continue
+		}
+		states := []kit.S{e.State}
+		if e.Return != nil {
+			for i, r := range e.Return.Results {
+				t := it.info.TypeOf(r)
+				key := fmt.Sprintf("rc:%d:%d", call.Pos(), i)
+				var next []kit.S
+				for _, x := range states {
+					switch {
+					case t == nil:
+						next = append(next, x)
+					case types.Identical(t, errT) || kit.IsNilIdent(it.info, r):
+						if v := it.st.ReturnsNil(&ast.ReturnStmt{Results: []ast.Expr{r}}, x); v != "unknown" {
+							x = x.Set(key, v)
+						}
+						next = append(next, x)
+					case c02IsPoint(t) || c02IsNodeEdge(t):
+						if el := it.elemOf(r, x); el != "" {
+							x = x.Set(key, el)
+						}
+						next = append(next, x)
+					default:
+						b, isBasic := t.Underlying().(*types.Basic)
+						switch {
+						case isBasic && b.Info()&types.IsBoolean != 0:
+							ts, fs := it.st.Eval.Eval(r, x)
+							for _, y := range ts {
+								next = append(next, y.Set(key, "true"))
+							}
+							for _, y := range fs {
+								next = append(next, y.Set(key, "false"))
+							}
+						case isBasic && b.Info()&types.IsInteger != 0:
+							if v, ok := it.intOf(r, x); ok {
+								x = x.Set(key, "#"+strconv.Itoa(v))
+							}
+							next = append(next, x)
+						default:
+							next = append(next, x)
+						}
+					}
+				}
+				states = next
+			}
+		}
+		for _, x := range states {
+			// forget the callee's locals
+			for _, k := range x.Keys() {
+				pos := -1
+				switch {
+				case strings.HasPrefix(k, "it:"):
+					pos, _ = strconv.Atoi(k[3:])
+				case strings.HasPrefix(k, "rc:"):
+					fmt.Sscanf(k[3:], "%d", &pos)
+					if pos == int(call.Pos()) {
+						pos = -1
+					}
+				case strings.HasPrefix(k, "out"), strings.HasPrefix(k, "ab"), strings.HasPrefix(k, "poison"):
+				default:
+					if at := strings.LastIndexByte(k, '@'); at >= 0 {
+						fmt.Sscanf(k[at+1:], "%d", &pos)
+					}
+				}
+				if pos >= 0 && inRange(pos) {
+					x = x.Del(k)
+				}
+			}
+			if kk := x.Key(); !seen[kk] {
+				seen[kk] = true
+				out = append(out, x)
+			}
+		}
+	}
+	it.inlined[cf] = true
+	return out
 }
 
 // ---------------------------------------------------------------------------
@@ -869,7 +1447,8 @@ func c02Tables(m *c02Model, r2 *kit.Rule) {
 	f := m.F
 	info := m.info
 	it := &c02Interp{m: m, f: f, info: info, matchM: map[*types.Func][]*types.Var{}, rangeX: map[ast.Expr]*ast.RangeStmt{},
-		childList: map[types.Object]string{}, alias: map[types.Object][2]string{}, containers: map[types.Object]bool{}, tracked: map[types.Object]bool{}, pIdx: -1, idIdx: -1}
+		childList: map[types.Object]string{}, alias: map[types.Object][2]string{}, containers: map[types.Object]bool{}, tracked: map[types.Object]bool{}, pIdx: -1, idIdx: -1,
+		scanned: map[*kit.Func]bool{}, unsafe: map[*kit.Func]bool{}, inlined: map[*kit.Func]bool{}, fnByKey: map[string]*kit.Func{}}
 
 	// data.Point fields and identity methods
 	dpk := c.P.MustPkg("data")
@@ -948,20 +1527,8 @@ func c02Tables(m *c02Model, r2 *kit.Rule) {
 				}
 				assignCount[o]++
 				if len(x.Lhs) == len(x.Rhs) {
-					if g, sd, ok := it.listOf(x.Rhs[i]); ok && g != "ch" {
+					if g, sd, ok := it.listOf(x.Rhs[i], kit.NewS()); ok && g != "ch" {
 						aliasCand[o] = [2]string{g, sd}
-					}
-				}
-				if v, ok := o.(*types.Var); ok && !v.IsField() && v.Parent() != nil && v.Parent() != v.Pkg().Scope() {
-					switch t := v.Type().Underlying().(type) {
-					case *types.Map:
-						if b, ok := t.Elem().Underlying().(*types.Basic); ok && b.Kind() == types.Bool {
-							it.containers[o] = true
-						}
-					case *types.Slice:
-						if b, ok := t.Elem().Underlying().(*types.Basic); ok && b.Kind() == types.Bool {
-							it.containers[o] = true
-						}
 					}
 				}
 			}
@@ -975,36 +1542,10 @@ func c02Tables(m *c02Model, r2 *kit.Rule) {
 			it.tracked[o] = true
 		}
 	}
-	// containers that escape (passed to a call, address taken) are not modelled
-	ast.Inspect(f.Body, func(n ast.Node) bool {
-		switch x := n.(type) {
-		case *ast.CallExpr:
-			if b, ok := kit.Callee(info, x).(*types.Builtin); ok && (b.Name() == "delete" || b.Name() == "len") {
-				return true
-			}
-			for _, a := range x.Args {
-				if o := kit.ObjOf(info, a); o != nil {
-					delete(it.containers, o)
-				}
-			}
-		case *ast.UnaryExpr:
-			if x.Op == token.AND {
-				if o := kit.ObjOf(info, x.X); o != nil {
-					delete(it.containers, o)
-				}
-			}
-		case *ast.RangeStmt:
-			if o := kit.ObjOf(info, x.X); o != nil {
-				delete(it.containers, o)
-			}
-		}
-		return true
-	})
 	firstRange := map[string]ast.Node{}
 	ast.Inspect(f.Body, func(n ast.Node) bool {
 		if rs, ok := n.(*ast.RangeStmt); ok {
-			it.rangeX[rs.X] = rs
-			if g, _, ok := it.listOf(rs.X); ok {
+			if g, _, ok := it.listOf(rs.X, kit.NewS()); ok {
 				for _, kv := range []ast.Expr{rs.Key, rs.Value} {
 					if kv != nil {
 						if o := kit.ObjOf(info, kv); o != nil {
@@ -1093,9 +1634,14 @@ func c02Tables(m *c02Model, r2 *kit.Rule) {
 		return s, true
 	}
 	st.Eval.OnUnknown = func(e ast.Expr) {
-		it.noteUnknown(e, it.mentionsTracked(e, kit.NewS()) || it.mentionsLen(e))
+		it.noteUnknown(e, it.mentionsTracked(e, kit.NewS()) || it.mentionsLen(e, kit.NewS()))
 	}
+	// the kit's own inlining stays off (it drops void callees and knows no
+	// closures); a non-nil hook makes Std clear call results after each node
+	st.ShouldInline = func(cf *kit.Func, call *ast.CallExpr) bool { return false }
 	client := st.Client()
+	it.client = client
+	it.scan(f)
 
 	rows := map[string]*c02Row{}
 	var rowOrder []string
@@ -1156,6 +1702,7 @@ func c02Tables(m *c02Model, r2 *kit.Rule) {
 			missing []c02Req
 			exit    kit.Exit
 			out     string
+			opaque  string // site of a call on the path that was not interpreted
 		}
 		var verdicts []verdict
 		judged := 0
@@ -1177,8 +1724,13 @@ func c02Tables(m *c02Model, r2 *kit.Rule) {
 				}
 			}
 			// unresolved payloads / targets
+			opaqueAt := ""
 			for _, r := range recs {
 				kind, side, skind, pay, idr, pr, at := r[0], r[1], r[2], r[3], r[4], r[5], r[6]
+				if kind == "O" {
+					opaqueAt = at
+					continue
+				}
 				pg, _, _, okPay := c02Split(pay)
 				if !okPay {
 					// a modified copy or a value built from the compared data:
@@ -1278,7 +1830,7 @@ func c02Tables(m *c02Model, r2 *kit.Rule) {
 					missing = append(missing, rq)
 				}
 			}
-			verdicts = append(verdicts, verdict{missing, e, out})
+			verdicts = append(verdicts, verdict{missing, e, out, opaqueAt})
 		}
 		if judged == 0 {
 			allUndecided("no exit is reached without a failed call under scenario " + sc.describe())
@@ -1290,18 +1842,28 @@ func c02Tables(m *c02Model, r2 *kit.Rule) {
 		// a requirement is violated when no judged path fulfils it; when only
 		// some paths do, the outcome hangs on a condition the checker cannot
 		// evaluate and the row stays undecided (never guessed)
-		missCount := map[string]int{} // requirement key -> number of exits missing it
+		missCount := map[string]int{}     // requirement key -> number of exits missing it
+		opaqueMiss := map[string]string{} // requirement key -> uninterpreted call on a path missing it
 		reqKey := func(rq c02Req) string {
 			return rq.row + "|" + rq.kind + "|" + rq.side + "|" + strings.Join(rq.elems, ",")
 		}
 		for _, v := range verdicts {
 			for _, rq := range v.missing {
+				if v.opaque != "" {
+					opaqueMiss[reqKey(rq)] = v.opaque
+					continue
+				}
 				missCount[reqKey(rq)]++
+			}
+		}
+		for k := range opaqueMiss {
+			if _, ok := missCount[k]; !ok {
+				missCount[k] = 0
 			}
 		}
 		badRows := map[string]bool{}
 		for _, rq := range reqs {
-			if missCount[reqKey(rq)] > 0 {
+			if missCount[reqKey(rq)] > 0 || opaqueMiss[reqKey(rq)] != "" {
 				badRows[rq.row] = true
 			}
 		}
@@ -1316,10 +1878,16 @@ func c02Tables(m *c02Model, r2 *kit.Rule) {
 		}
 		for _, rq := range reqs {
 			n := missCount[reqKey(rq)]
-			if n == 0 {
+			if n == 0 && opaqueMiss[reqKey(rq)] == "" {
 				continue
 			}
 			rw := rows[rq.row]
+			if at := opaqueMiss[reqKey(rq)]; at != "" {
+				if rw.undecided == "" {
+					rw.undecided = fmt.Sprintf("under scenario {%s} the requirement «%s (%s)» is not seen, but the path runs through the call at %s, which the checker could not interpret and which may perform it", sc.describe(), rq.want, c02Pretty(rq.elems[0]), at)
+				}
+				continue
+			}
 			if n < len(verdicts) {
 				if rw.undecided == "" {
 					rw.undecided = fmt.Sprintf("under scenario {%s} the requirement «%s (%s)» is met on some paths only; it depends on `%s`, which the checker cannot evaluate", sc.describe(), rq.want, c02Pretty(rq.elems[0]), strings.Join(uniqStrings(it.unknown), "`, `"))
